@@ -95,9 +95,10 @@ inductive Cont where
   | loop (x : Exit)
   /-- a native function called with `call_info.frame_base = fb`; `host = some (rr, t)` when it was
       called directly by a host entry whose result register is `rr` — `t = true` for
-      `call_and_run_function`, which (since fix 5247d9c) runs `truncate_registers(rr)` before it
-      propagates an error of `call_callable`; `t = false` for `call_overridden_op_N` from `run_*_op`,
-      whose `?` returns without truncating (F-C07-3) — and `none` when called by a `Call` instruction -/
+      `call_and_run_function` (since fix 5247d9c) and the `run_*_op` wrappers (since fix d4834c0),
+      which run `truncate_registers(rr)` before they propagate an error; `t = false` describes an
+      entry whose `?` returns without truncating (the code before those fixes; no entry point
+      produces it any more) — and `none` when called by a `Call` instruction -/
   | native (fb : Nat) (host : Option (Nat × Bool))
   /-- `run_import` of module `m`; `saved` = the importer's exports -/
   | importing (m : Nat) (saved : List Nat)
@@ -160,11 +161,10 @@ inductive Ev where
       first; `run` has `pre = 0`), then the frame base and `args` arguments -/
   | enter (pre args : Nat) (c : Callee)
   /-- `run_unary/binary/read/write_op` whose operation goes through `call_overridden_op_N` +
-      `call_callable`: same prologue as `enter` (`pre` = 2/3/3/4 result+operand registers), but a
-      failure of `call_callable` returns through `?` without truncating (F-C07-3) -/
+      `call_callable`: same prologue as `enter` (`pre` = 2/3/3/4 result+operand registers) -/
   | enterOp (pre args : Nat) (c : Callee)
-  /-- `run_*_op` whose operation is performed natively: pushes `pre` registers; `ok = false` is the
-      early `?` return -/
+  /-- `run_*_op` whose operation is performed natively: pushes `pre` registers; `ok = false`: the
+      operation fails -/
   | enterDirect (pre : Nat) (ok : Bool)
   /-- the running native function returns `Ok` / `Err` -/
   | nativeRet (ok : Bool)
@@ -296,14 +296,18 @@ def enterWith (truncOnErr : Bool) (pre args : Nat) (c : Callee) (st : St) : St :
 /-- `run(chunk)` and `call_and_run_function` -/
 def enter (pre args : Nat) (c : Callee) (st : St) : St := enterWith true pre args c st
 
-/-- `run_*_op` through `call_overridden_op_N` -/
-def enterOp (pre args : Nat) (c : Callee) (st : St) : St := enterWith false pre args c st
+/-- `run_*_op` through `call_overridden_op_N`. Since fix d4834c0 the public `run_*_op` wrappers run
+`truncate_registers(result_register)` whenever the operation returns `Err`, so these entries
+truncate on the early-error path as well (`enterWith false` describes the code before that fix). -/
+def enterOp (pre args : Nat) (c : Callee) (st : St) : St := enterWith true pre args c st
 
-/-- `run_*_op` whose operation is performed natively (no `call_callable`). -/
+/-- `run_*_op` whose operation is performed natively (no `call_callable`). On `Err` the inner
+function returns through `?`; the public wrapper (fix d4834c0) then truncates to the result
+register before the error is propagated. -/
 def enterDirect (pre : Nat) (ok : Bool) (st : St) : St :=
   let vm1 := { st.vm with regs := st.vm.regs + pre }
   if ok then { st with vm := truncate (nextRegister st.vm) vm1 }   -- `get_overridden_op_result`
-  else raiseGo st.conts true vm1                                   -- early `?`
+  else raiseGo st.conts true (truncate (nextRegister st.vm) vm1)   -- `?`, then the wrapper truncates
 
 /-- `call_overridden_op_N` + barrier + nested `execute_instructions`: comparison operators and `@next`
 overloaded in Koto (from an instruction), arithmetic operators overloaded in Koto
@@ -374,9 +378,9 @@ def step (ev : Ev) (st : St) : St :=
           | some rr => ⟨truncate rr.1 vm1, conts⟩
           | none => ⟨vm1, conts⟩
         else
-          -- `host = some (rr, true)`: `call_and_run_function` truncates to its result register and
-          -- returns the error (fix 5247d9c); `host = some (_, false)`: `call_callable(..)?` in
-          -- `call_overridden_op_N` / `run_*_op` returns early, nothing is undone (F-C07-3);
+          -- `host = some (rr, true)`: `call_and_run_function` / the `run_*_op` wrapper truncates to its
+          -- result register and returns the error (fixes 5247d9c, d4834c0); `host = some (_, false)`:
+          -- an early `?` that undoes nothing (the code before those fixes);
           -- `host = none`: the `Call` instruction fails. In every case the error is then raised in
           -- the loop below if there is one, else handed to the native/host caller.
           match host with
